@@ -351,7 +351,15 @@ fn run_batch(c: &SchedCase) -> ExecOutcome {
     };
     let mut el: EventLoop<(u64, u64, u64)> = EventLoop::try_new().expect("loop");
     let h = el.handle();
-    let (tx, rx) = channel::<u64>();
+    // unbounded, or bounded with a capacity above the batch limit
+    let bounded = c.case % 3 == 1;
+    let (tx, rx) = if bounded {
+        let (t, r) = sync_channel::<u64>(4096);
+        (Tx::S(t), r)
+    } else {
+        let (t, r) = channel::<u64>();
+        (Tx::A(t), r)
+    };
     h.insert_source(rx, |ev, _, d: &mut (u64, u64, u64)| match ev {
         Event::Msg(m) => {
             if m != d.0 {
@@ -363,7 +371,10 @@ fn run_batch(c: &SchedCase) -> ExecOutcome {
     })
     .expect("insert");
     for i in 0..n {
-        tx.send(i).unwrap();
+        match &tx {
+            Tx::A(t) => t.send(i).unwrap(),
+            Tx::S(t) => t.try_send(i).unwrap(),
+        }
     }
     let keep = c.case % 2 == 0;
     let mut tx = Some(tx);
@@ -396,6 +407,9 @@ fn run_batch(c: &SchedCase) -> ExecOutcome {
     }
     drop(tx);
     o.cov(&format!("batch:{}", if n < 1024 { "below-limit" } else if n == 1024 { "at-limit" } else { "above-limit" }));
+    if bounded {
+        o.cov("batch:bounded-channel-with-capacity-above-the-limit");
+    }
     o.ev("delivered", d.0);
     o.nontrivial = true;
     o
